@@ -15,7 +15,7 @@ import subprocess
 import tempfile
 from datetime import datetime
 
-from vt import core, rules as R, matchobs as O, world
+from vt import core, rules as R, matchobs as O, world, lang
 
 SPEC = {
     'level': 'exploration',
@@ -57,7 +57,13 @@ POISONS = {
     'method-misuse': ['description.startswith(5)', 'description.replace(1, 2) == ""', 'amount.lower() == ""', 'description.nosuch() == 1'],
     'wrong-arity': ['contains()', 'split("-") == ""', 'substring(1) == ""', 'round() > 0', 'abs() > 0', 'exists() or true', 'len() > 0'],
     'division-type': ['"a" / 2 > 1', 'amount % "x" == 0', 'description / amount > 0'],
+    # a list comprehension whose per-row condition / element cannot be evaluated fails as a whole (it does not quietly yield a shorter list)
+    'failing-row-in-list-comprehension': ['len([r for r in rows if r.nope > 0]) == 0', 'not [r.item for r in rows if r.amt > "x"]', 'len([r.nope for r in rows]) >= 0',
+                                          'len([r for r in orders if r.item > 5]) == 0', '[r.amt + r.item for r in rows] == []',
+                                          'len([s.nope for r in rows for s in orders]) == 0'],
+    'falsy-non-number-divisor': ['amount / field.nope < 5', 'amount / "" < 5', 'amount % "" == 0', '10 / description.strip("abcdefghijklmnopqrstuvwxyzABCDEFGHIJKLMNOPQRSTUVWXYZ0123456789 .-*#\'") < 1'],
 }
+REF_DECIDES = {'failing-row-in-list-comprehension', 'unknown-name'}
 POSITIONS = ['match-whole', 'match-and', 'match-or', 'let-extra', 'field-extra', 'tag-extra', 'transform', 'variable']
 
 VIEW_POISONS = ['sum(by("month")) > 100', 'category > 5', 'payments > 3', 'months + "x" > 1', 'nosuchvar > 1', 'total / category > 1',
@@ -166,7 +172,21 @@ def judge(rec, rf, cls, poison, pos, txns, rows, tmp, rnd):
             continue
         if not pf:
             rec.count('poison_evaluates_here')
+            # the implementation itself decides what "cannot be evaluated" means - except where an independent reading of the language says
+            # the expression has no value at all (a name/attribute that does not exist on some row, a string compared with a number ...):
+            # then an implementation that DOES produce a value has turned a failure into a result
+            if cls in REF_DECIDES:
+                try:
+                    lang.Ref(tt, {}, rows).eval_str(poison)
+                except lang.RefError:
+                    rec.count('reference_says_unevaluable_checks')
+                    rec.violation('unevaluable-expression-yields-a-value:' + cls, f'{poison!r} has no value for {txn.get("description")!r} (reference interpreter: not evaluable) '
+                                  f'but the implementation evaluates it', case)
+                except Exception:
+                    pass
             continue
+        if cls in REF_DECIDES:
+            rec.count('reference_says_unevaluable_checks')
         rec.count('poison_confirmed_failing')
         rec.count('cls:' + cls)
         rec.count('pos:' + pos)
@@ -330,7 +350,12 @@ def judge_views(rec, rnd):
         pv[i] = (pv[i][0], [('zzbad', poison)], pv[i][2])
         ptxt, btxt, gone = text(pv), text(base), None
     else:
-        ptxt, btxt, gone = text(base, 'zzbad = %s\n' % poison), text(base), None
+        # the failing variable's NAME may occur inside the text of filters that never read it ("month" in "months", "tot" in "total"),
+        # or in an operand that short-circuit evaluation does not reach
+        nm = rnd.choice(['zzbad', 'zzbad', 'month', 'cat', 'tot', 'sum', 'tag', 'm', 'ue'])
+        if rnd.random() < .4:
+            base = base + [('ShortCircuit', [], 'true or %s > 50' % nm), ('ShortCircuit2', [], 'not (false and %s > 50)' % nm)]
+        ptxt, btxt, gone = text(base, '%s = %s\n' % (nm, poison)), text(base), None
     case = {'kind': 'views', 'views': ptxt, 'poison': poison, 'mode': mode}
     rec.case()
     try:
